@@ -174,7 +174,9 @@ func c06ValueCheck(nl ap.NaturalLanguageValues, pair string) (ds []keyed) {
 			worst = c
 		}
 	}
-	key := func(effect string) string { return fmt.Sprintf("text %s value-%s %s %s %s", family, pair, form, worst, effect) }
+	key := func(effect string) string {
+		return fmt.Sprintf("text %s value-%s %s %s %s", family, pair, form, worst, effect)
+	}
 	x := append(ap.NaturalLanguageValues{}, nl...)
 	var got ap.NaturalLanguageValues
 	var b []byte
